@@ -1,6 +1,6 @@
 //go:build verif
 
-package allocator
+package tcphandlers
 
 import (
 	"context"
@@ -15,16 +15,18 @@ import (
 	"testing/synctest"
 	"time"
 
+	"github.com/Lumerin-protocol/proxy-router/internal/interfaces"
 	"github.com/Lumerin-protocol/proxy-router/internal/lib"
 	"github.com/Lumerin-protocol/proxy-router/internal/resources"
+	"github.com/Lumerin-protocol/proxy-router/internal/resources/hashrate/allocator"
 	"github.com/Lumerin-protocol/proxy-router/internal/resources/hashrate/hashrate"
 	"github.com/Lumerin-protocol/proxy-router/internal/resources/hashrate/proxy"
 	"github.com/Lumerin-protocol/proxy-router/internal/resources/hashrate/validator"
 	"github.com/Lumerin-protocol/proxy-router/internal/verifh/vh"
 )
 
-// Lifecycle harness (C06, C13): a real Scheduler over a real Proxy between a fake miner and fake pools
-// (net.Pipe, synctest bubble), what the TCP handler does around them, and fault injection:
+// Lifecycle harness (C06, C13): the real TCP handler (NewTCPHandler: StratumConnection, Proxy, Scheduler,
+// miner list) serving a fake miner against fake pools (net.Pipe, synctest bubble), with fault injection:
 //
 //	cfg maxcached=<n> idle=<ms>
 //	pool <name> reach=0|1 auth=0|1
@@ -43,8 +45,7 @@ type lifeSess struct {
 	pools   map[string]*vh.FakePool
 	order   []string
 	miner   *vh.FakeMiner
-	sched   *Scheduler
-	alloc   *Allocator
+	alloc   *allocator.Allocator
 	ctx     context.Context
 	cancel  context.CancelFunc
 	exit    chan error
@@ -62,7 +63,7 @@ func lifeErrKind(err error) string {
 	switch {
 	case err == nil:
 		return "nil"
-	case errors.Is(err, ErrConnPrimary):
+	case errors.Is(err, allocator.ErrConnPrimary):
 		return "conn-primary"
 	case errors.Is(err, proxy.ErrNotStratum):
 		return "not-stratum"
@@ -95,8 +96,6 @@ func newLifeSess(maxCached int, idle time.Duration, pools []*vh.FakePool) *lifeS
 	s.miner = &vh.FakeMiner{C: minerSide, Rec: s.rec}
 	go s.miner.Run()
 	log := vh.NopLog()
-	stratumConn := proxy.CreateConnection(proxySide, "miner-addr", idle, idle, log)
-	src := proxy.NewSourceConn(stratumConn, log)
 	factory := func(ctx context.Context, u *url.URL, srcWorker, srcAddr string) (*proxy.ConnDest, error) {
 		p, ok := s.pools[u.Hostname()]
 		if !ok || p.DialFail {
@@ -116,23 +115,25 @@ func newLifeSess(maxCached int, idle time.Duration, pools []*vh.FakePool) *lifeS
 	hrf := func() *hashrate.Hashrate { return hashrate.NewHashrate(map[string]hashrate.Counter{}) }
 	gh := hashrate.NewGlobalHashrate(hrf)
 	def := lifeURL(pools[0].Name)
-	prx := proxy.NewProxy("miner-addr", src, factory, hrf, gh, def, false, 0, maxCached, log,
+	s.alloc = allocator.NewAllocator(lib.NewCollection[*allocator.Scheduler](), log)
+	// the miner's idle read time is the configured one, its idle write time the fixed ten minutes (cmd/main.go)
+	handler := NewTCPHandler(log, log, log, func(string) (interfaces.ILogger, error) { return log, nil },
+		false, idle, 10*time.Minute, 0, maxCached, def, factory, hrf, gh, "mean", s.alloc,
 		func(id string) (resources.Contract, bool) { return nil, false })
-	s.alloc = NewAllocator(lib.NewCollection[*Scheduler](), log)
-	s.sched = NewScheduler(prx, "mean", def, 0, hrf, nil, func(contractID *string, err error) {
-		s.rec.Add("session", "dest-err %s", lifeErrKind(err))
-	}, log)
-	s.alloc.GetMiners().Store(s.sched)
 	s.ctx, s.cancel = context.WithCancel(context.Background())
-	// what tcphandlers.NewTCPHandler does around the scheduler
 	go func() {
-		err := s.sched.Run(s.ctx)
-		s.alloc.GetMiners().Delete("miner-addr")
-		stratumConn.Close()
-		s.exit <- err
+		handler(s.ctx, proxySide)
+		s.exit <- nil
 	}()
 	return s
 }
+
+func (s *lifeSess) sched() *allocator.Scheduler {
+	sc, _ := s.alloc.GetMiners().Load(lifeAddr)
+	return sc
+}
+
+const lifeAddr = "pipe" // RemoteAddr of a net.Pipe end
 
 func (s *lifeSess) lastConn(pool string) *vh.FakePoolConn {
 	p := s.pools[pool]
@@ -179,11 +180,8 @@ func (s *lifeSess) state(tr *vh.Transcript) {
 	pipes := strings.Count(st, "proxy.(*Pipe).Run(")
 	if s.exited == "" {
 		select {
-		case err := <-s.exit:
-			s.exited = "exited:" + lifeErrKind(err)
-			if s.shut { // which error wins after a shutdown is a race between the cancelled context and the closed miner connection
-				s.exited = "exited:shutdown"
-			}
+		case <-s.exit:
+			s.exited = "exited"
 		default:
 		}
 	}
@@ -191,12 +189,28 @@ func (s *lifeSess) state(tr *vh.Transcript) {
 	if sched == "" {
 		sched = "running"
 	}
-	_, listed := s.alloc.GetMiners().Load("miner-addr")
+	_, listed := s.alloc.GetMiners().Load(lifeAddr)
 	l := strings.Join(live, ",")
 	if l == "" {
 		l = "-"
 	}
 	tr.Out("state live=%s runs=%d pipes=%d sched=%s listed=%d", l, runs, pipes, sched, b2iLife(listed))
+}
+
+func lifeEndKind(err error) string {
+	switch {
+	case err == nil:
+		return "done"
+	case errors.Is(err, allocator.ErrTaskDeadlineExceeded):
+		return "deadline"
+	case errors.Is(err, allocator.ErrTaskMinerDisconnected):
+		return "minerdisconnected"
+	case errors.Is(err, allocator.ErrProxyExited):
+		return "proxyexited"
+	case errors.Is(err, allocator.ErrConnDest):
+		return "conndest"
+	}
+	return "other"
 }
 
 func b2iLife(b bool) int {
@@ -259,6 +273,19 @@ func lifeExec(tr *vh.Transcript, ops []string) {
 			}
 			pools = append(pools, p)
 			tr.Op("%s", op)
+		case "startfail": // the default pool fails during the first handshake: unreachable, or hangs up on a request
+			switch f[1] {
+			case "dial":
+				pools[0].DialFail = true
+			default:
+				pools[0].CloseOn = "mining." + f[1]
+			}
+			s = newLifeSess(maxCached, idle, pools)
+			synctest.Wait()
+			s.miner.Send(`{"id":2,"method":"mining.subscribe","params":["cgminer/4.9.0"]}`)
+			synctest.Wait()
+			s.miner.Send(`{"id":3,"method":"mining.authorize","params":["acct.rig7",""]}`)
+			after(op)
 		case "start":
 			s = newLifeSess(maxCached, idle, pools)
 			synctest.Wait()
@@ -270,10 +297,15 @@ func lifeExec(tr *vh.Transcript, ops []string) {
 			var ms int64
 			fmt.Sscan(f[3], &ms)
 			id := f[1]
-			s.sched.AddTask(id, lifeURL(f[2]), 1e18, func(float64, string) {}, func(string, float64, float64) {
+			sc := s.sched()
+			if sc == nil {
+				after(op)
+				continue
+			}
+			sc.AddTask(id, lifeURL(f[2]), 1e18, func(float64, string) {}, func(string, float64, float64) {
 				s.rec.Add("session", "task %s miner-disconnected", id)
 			}, func(_ string, _ float64, _ float64, err error) {
-				s.rec.Add("session", "task %s ended %s", id, c07EndKind(err))
+				s.rec.Add("session", "task %s ended %s", id, lifeEndKind(err))
 			}, time.Now().Add(time.Duration(ms)*time.Millisecond))
 			after(op)
 		case "poolclose":
@@ -349,7 +381,17 @@ func TestVerifLife(t *testing.T) {
 
 func lifeGen(r *vh.Rng) []string {
 	ops := []string{fmt.Sprintf("cfg maxcached=%d idle=%d", 1+r.Intn(3), vh.Pick(r, []int{600000, 600000, 20000}))}
-	ops = append(ops, "pool pa reach=1 auth=1", fmt.Sprintf("pool pb reach=%d auth=%d", b2iLife(r.Bool(75)), b2iLife(r.Bool(85))), "pool pc reach=1 auth=1", "start")
+	ops = append(ops, "pool pa reach=1 auth=1", fmt.Sprintf("pool pb reach=%d auth=%d", b2iLife(r.Bool(75)), b2iLife(r.Bool(85))), "pool pc reach=1 auth=1")
+	if r.Bool(8) {
+		return append(ops, "startfail "+vh.Pick(r, []string{"dial", "subscribe", "authorize"}), "advance 100", "advance 5000")
+	}
+	ops = append(ops, "start")
+	if r.Bool(12) {
+		// a miner that goes silent while its pool keeps announcing jobs
+		for i := 0; i < 5; i++ {
+			ops = append(ops, fmt.Sprintf("advance %d", vh.Pick(r, []int{5000, 9000})), fmt.Sprintf("pnotify pa s%d", i))
+		}
+	}
 	n := 3 + r.Intn(12)
 	id, job := 20, 0
 	for i := 0; i < n; i++ {
@@ -383,7 +425,7 @@ func lifeGen(r *vh.Rng) []string {
 // absent connections in the steady state, reconnects that succeed / are refused / are not authorised,
 // traffic only while relaying, miner disconnect and shutdown.
 func lifeGenRegular(r *vh.Rng) []string {
-	ops := []string{fmt.Sprintf("cfg maxcached=%d idle=600000", 1+r.Intn(3)), "pool pa reach=1 auth=1", "pool pb reach=1 auth=1", "start"}
+	ops := []string{fmt.Sprintf("cfg maxcached=%d idle=6000000", 1+r.Intn(3)), "pool pa reach=1 auth=1", "pool pb reach=1 auth=1", "start"}
 	relaying, over := true, false
 	sinceFault := 0
 	id, job := 20, 0
